@@ -240,9 +240,8 @@ def model_view(drv, pid, outdir, shard_file, local_case, step):
         rc, out = drv.run(['timeout', '600', 'coqc', '-R', drv.COQ, 'Verif', p], cwd=outdir)
         return out
     src += ("Definition the_case := nth %d cases {| h_zero := VNil; h_steps := [] |}.\n"
-            "Definition before := pool_after (h_zero the_case) [] (firstn %d (map ps_op (h_steps the_case))).\n"
-            "Definition Report := Eval vm_compute in (step_report (h_zero the_case) before (nth %d (h_steps the_case) {| ps_op := IsEmpty 0; ps_ret := RBad; ps_diff := [] |})).\n"
-            "Print Report.\n") % (local_case, step, step)
+            "Definition Report := Eval vm_compute in (hist_report the_case %d).\n"
+            "Print Report.\n") % (local_case, step)
     p = os.path.join(outdir, 'explain_tmp.v')
     open(p, 'w').write(src)
     rc, out = drv.run(['timeout', '600', 'coqc', '-R', drv.COQ, 'Verif', p], cwd=outdir)
